@@ -23,6 +23,7 @@ func checkC11(c *Ctx) {
 	c.Rule("C11/R4", "the exact method is used exactly when both sizes are within the limit that applies (the tie limit when ties were seen, the plain limit otherwise); ties are flagged whenever a rank group has more than one member, in either sample, and the tie vector always reaches the exact distribution")
 	c.Rule("C11/R5", "every p-value the test can return lies in [0,1] by construction (interval evaluation with CDF values in [0,1] and min(x,1-x) <= 1/2)")
 	c.Rule("C11/R7", "exact distribution code: every integer quotient in the tie-aware counting code has a dividend tested non-negative (truncating division is the floor only then); the untied mass function reads p(k)[k] for k = floor(U) or its mirror image n1n2 - floor(U)")
+	c.Rule("C11/R8", "binomial coefficients are exact where they are integers: the int64 product in mathChoose is guarded by n <= 20")
 	c.Rule("C11/R6", "the legacy wrappers return every test error (converted) with p = -1 and the test's own P otherwise")
 
 	p := mustLoad(c, loadOpts{}, "./internal/stats", "./benchstat")
@@ -607,6 +608,11 @@ func c11Eval(e *ratEnv, s *Sym) *big.Rat {
 			if y.Sign() == 0 {
 				panic(e7Err{"division by zero"})
 			}
+			if s.Type != nil && isInteger(s.Type) && x.IsInt() && y.IsInt() {
+				// Go's integer division truncates toward zero
+				q := new(big.Int).Quo(x.Num(), y.Num())
+				return new(big.Rat).SetInt(q)
+			}
 			return rQuo(x, y)
 		}
 	case "unop":
@@ -979,4 +985,132 @@ func c11Dist(c *Ctx, p *Prog) {
 		})
 	}
 	c.Floor(R, "integer divisions in the tie-aware counting code", nDiv, 1)
+	c11PMF(c, p)
+	c11Choose(c, p)
+}
+
+// c11PMF: the untied mass function is p(k)[k] with k = floor(U) or, by the symmetry of the untied distribution, its
+// mirror image n1n2 - floor(U) (the CDF's mirroring n1n2 - floor(U) - 1 belongs to a cumulative sum and is off by one here).
+func c11PMF(c *Ctx, p *Prog) {
+	const R = "C11/R7"
+	fn := p.Method("internal/stats", "UDist", "PMF")
+	if fn == nil {
+		c.Undecided(R, "anchor:UDist.PMF", "", "not found")
+		return
+	}
+	site := p.pos(fn.Pos())
+	mk := func() *e6Interp { return &e6Interp{PureCall: func(f *types.Func) bool { return true }} }
+	outs, why := e6Enumerate(mk, fn.Blocks[0], nil, nil, 256)
+	if why != "" {
+		c.Undecided(R, "PMF:untied-index", site, why)
+		return
+	}
+	leaf := func(s *Sym) string {
+		str := s.String()
+		switch {
+		case strings.Contains(str, "math.Floor") && (s.Op == "convert" || s.Op == "call"):
+			return "ui"
+		case s.Op == "field" && s.Name == "N1":
+			return "n1"
+		case s.Op == "field" && s.Name == "N2":
+			return "n2"
+		}
+		return ""
+	}
+	pts := []map[string]*big.Rat{{"ui": rat(3, 1), "n1": rat(4, 1), "n2": rat(5, 1)}, {"ui": rat(17, 1), "n1": rat(4, 1), "n2": rat(5, 1)}, {"ui": rat(10, 1), "n1": rat(3, 1), "n2": rat(7, 1)}}
+	n := 0
+	for _, o := range outs {
+		if o.Term != "return" || len(o.Results) != 1 {
+			continue
+		}
+		res := o.Results[0]
+		// index(call p(d, A), B) in either representation
+		var call, idx *Sym
+		res.Walk(func(s *Sym) {
+			if call != nil {
+				return
+			}
+			if (s.Op == "index" || s.Op == "load") && strings.Contains(s.String(), "UDist).p(") {
+				var arr *Sym
+				switch {
+				case s.Op == "index" && len(s.Args) == 2:
+					arr, idx = s.Args[0], s.Args[1]
+				case s.Op == "load" && s.Args[0].Op == "indexaddr":
+					arr, idx = s.Args[0].Args[0], s.Args[0].Args[1]
+				}
+				if arr != nil && arr.Op == "call" {
+					call = arr
+				}
+			}
+		})
+		if call == nil || idx == nil {
+			continue
+		}
+		n++
+		arg := call.Args[len(call.Args)-1]
+		key := fmt.Sprintf("PMF:untied-index#%d", n)
+		same := arg.String() == idx.String()
+		okDirect, _ := e7Equal(idx, func(g func(string) *big.Rat) *big.Rat { return g("ui") }, pts, leaf)
+		okMirror, _ := e7Equal(idx, func(g func(string) *big.Rat) *big.Rat { return rSub(rMul(g("n1"), g("n2")), g("ui")) }, pts, leaf)
+		c.Check(same && (okDirect || okMirror), R, key, site, "the mass at floor(U) is read from the table built up to that index",
+			fmt.Sprintf("the untied mass function reads entry %s of the table p(%s), which is neither floor(U) nor its mirror image n1n2 - floor(U): the masses are shifted by one in part of the support, no longer sum to 1 and no longer accumulate to the CDF (%s)", truncate(idx.String(), 120), truncate(arg.String(), 120), truncate(o.AssignStr(), 200)))
+	}
+	c.Floor(R, "untied mass-function returns", n, 1)
+}
+
+// c11Choose: the exact integer product in the binomial coefficient needs n itself bounded: n(n-1)...(n-k+1) <= n! fits
+// int64 only for n <= 20, whatever k is.
+func c11Choose(c *Ctx, p *Prog) {
+	const R = "C11/R8"
+	fn := p.Fn("internal/stats", "mathChoose")
+	if fn == nil {
+		c.Undecided(R, "anchor:mathChoose", "", "not found")
+		return
+	}
+	nParam := fn.Params[0]
+	n := 0
+	for _, lp := range naturalLoops(fn) {
+		for b := range lp.Blocks {
+			for _, in := range b.Instrs {
+				bo, ok := in.(*ssa.BinOp)
+				if !ok || bo.Op != token.MUL || !isInteger(bo.Type()) {
+					continue
+				}
+				n++
+				bounded := false
+				for _, f := range factsAt(lp.Header) {
+					cmp, ok := f.Cond.(*ssa.BinOp)
+					if !ok {
+						continue
+					}
+					x, y := stripConvInt(cmp.X), stripConvInt(cmp.Y)
+					ky, oky := constInt(y)
+					kx, okx := constInt(x)
+					switch {
+					case x == nParam && oky && ((cmp.Op == token.LEQ && f.True && ky <= 20) || (cmp.Op == token.LSS && f.True && ky <= 21) || (cmp.Op == token.GTR && !f.True && ky <= 20) || (cmp.Op == token.GEQ && !f.True && ky <= 21)):
+						bounded = true
+					case y == nParam && okx && ((cmp.Op == token.GEQ && f.True && kx <= 20) || (cmp.Op == token.GTR && f.True && kx <= 21) || (cmp.Op == token.LSS && !f.True && kx <= 20) || (cmp.Op == token.LEQ && !f.True && kx <= 21)):
+						bounded = true
+					}
+				}
+				c.Check(bounded, R, fmt.Sprintf("mathChoose:product#%d", n), p.pos(bo.Pos()), "the integer product runs only for n <= 20",
+					"the exact integer product n(n-1)...(n-k+1) is not guarded by n <= 20 (20! is the largest factorial below 2^63): for pooled sizes above 20 the product overflows int64 and the tie-aware counts, hence exact p-values, are garbage (even negative)")
+			}
+		}
+	}
+	c.Floor(R, "integer products in mathChoose", n, 1)
+}
+
+func stripConvInt(v ssa.Value) ssa.Value {
+	for {
+		switch x := v.(type) {
+		case *ssa.Convert:
+			v = x.X
+			continue
+		case *ssa.ChangeType:
+			v = x.X
+			continue
+		}
+		return v
+	}
 }
